@@ -16,7 +16,7 @@ def opNum (n : String) : Nat := ((DS.Gen.Opcodes.opcodes.find? (·.1 == n)).map 
 def pegEnv (input : Array Nat) (maxCnt : Nat) (custom : Nat → Nat := fun _ => 0) : Env :=
   { input := input, rules := DS.Gen.Grammar.rules, acts := pegActs, nodeCount := DS.Gen.Grammar.nodeCount,
     tables := DS.Gen.Unicode.tables,
-    bpush := opNum "typeBlockPush", bpop := opNum "typeBlockPop", jmp := opNum "typeJmp",
+    bpush := opNum "typeBlockPush", bpop := opNum "typeBlockPop", fpush := opNum "typeFStringBlockPush", fpop := opNum "typeFStringBlockPop", jmp := opNum "typeJmp",
     maxCnt := maxCnt, custom := custom, customOp := opNum "typeCustomDice" }
 
 def pegFlags (tok : String) : Flags × Nat :=
